@@ -115,6 +115,56 @@ func runC40(c *Ctx) {
 
 	c40Sends(c, p)
 	c40Locks(c, p)
+	c40PublishAfterInit(c, p)
+}
+
+// c40PublishAfterInit: a *stream.Reader that a connection/session hands to
+// Stream.AddReader (which initialises its counters and starts it) is stored into
+// the field that the API / metrics goroutines read (under the object's mutex)
+// only AFTER that call. Publishing it earlier opens a window in which another
+// goroutine calls methods of an uninitialised Reader (nil counter dereference)
+// and races with Reader.start(). Applies where the stored value and the
+// AddReader argument are the same SSA value in one function (srt, rtmp, webrtc);
+// the HLS holders create the reader directly in the field and publish the
+// holder itself later - not covered.
+func c40PublishAfterInit(c *Ctx, p *Prog) {
+	n := 0
+	for _, fn := range p.ModFuncs() {
+		if !strings.Contains(funcPkgPath(fn), "/internal/servers/") {
+			continue
+		}
+		adds := callsIn(fn, "(*stream.Stream).AddReader")
+		if len(adds) == 0 {
+			continue
+		}
+		eachInstr(fn, func(i ssa.Instruction) {
+			st, ok := i.(*ssa.Store)
+			if !ok || typeStr(st.Val.Type()) != "*stream.Reader" || isNilConst(st.Val) {
+				return
+			}
+			fa, ok := st.Addr.(*ssa.FieldAddr)
+			if !ok {
+				return
+			}
+			if _, fresh := fa.X.(*ssa.Alloc); fresh {
+				return
+			}
+			var add ssa.Instruction
+			for _, a := range adds {
+				if args := callCommon(a).Args; len(args) == 2 && args[1] == st.Val {
+					add = a
+				}
+			}
+			if add == nil {
+				return
+			}
+			n++
+			w := reachAvoiding(entry(fn), func(j ssa.Instruction) bool { return j == i }, func(j ssa.Instruction) bool { return j == add })
+			c.Check("C40.publish_after_init", fnName(fn)+": "+desc(st.Addr)+" is assigned the reader only after Stream.AddReader initialised it", w == nil, p.Pos(posOf(i, fn)),
+				"API/metrics goroutines read this field under the mutex and call methods of the reader; before AddReader its counters are nil and start() has not run")
+		})
+	}
+	c.Floor("C40.publish_after_init", n, 3)
 }
 
 // ---------------------------------------------------------------- (a)
